@@ -153,28 +153,49 @@ def run_campaign(prop_id, tier, seed, repo, ncases=None, wall_s=None, verbose=Fa
                 else:
                     lines.append(f"NOTE: known finding {kf['id']} of {prop_id} did not reproduce "
                                  f"in this run")
-        # 4. minimise and confirm new violations
+        # 4. minimise and confirm new violations.  Signatures are coarse while searching; the
+        #    fine site (e.g. the edit class of a model mismatch) is read off the minimised replay.
         os.makedirs(os.path.join(OUT_DIR, "replays"), exist_ok=True)
         reported = []
-        nsig = len(new_sigs)
-        per_budget = max(10.0, min(60.0 if tier == "quick" else 300.0, 120.0 / max(1, nsig)))
-        for sig, (o, v) in list(new_sigs.items())[:12]:
-            rep = confirm_and_write(ctx, P, H, prop_id, sig, o, v, per_budget, seed, tier)
-            if rep is None:
-                harness.append({"i": o["i"], "status": "HARNESS",
-                                "error": f"violation {sig} did not reproduce on replay"})
-                continue
-            reported.append(rep)
-            lines.append(f"VIOLATION property={prop_id} replay={rep['path']}")
-            lines.append(f"  clause={sig[1]} site={sig[2]}")
-            lines.append(f"  detail={v['detail'][:300]!r}")
-            rc = 1
-        for sig in list(new_sigs)[12:]:
+        groups = collections.OrderedDict()
+        for sig, (o, v) in new_sigs.items():
+            groups.setdefault(sig, []).append((o, v))
+        nrep = sum(min(len(g), 1) for g in groups.values())
+        per_budget = max(10.0, min(60.0 if tier == "quick" else 300.0, 150.0 / max(1, nrep)))
+        fine_reported = set()
+        n_new = 0
+        for sig, members in list(groups.items())[:12]:
+            for (o, v) in members[:1]:
+                rep = confirm_and_write(ctx, P, H, prop_id, sig, o, v, per_budget, seed, tier)
+                if rep is None:
+                    harness.append({"i": o["i"], "status": "HARNESS",
+                                    "error": f"violation {sig} did not reproduce on replay"})
+                    continue
+                fv = rep.get("fine_violation") or v
+                kf = match_finding(fv, findings)
+                if kf is not None:
+                    known_seen.setdefault(kf["id"], {"reproduced": True, "count": 0})
+                    known_seen[kf["id"]]["count"] += 1
+                    lines.append(f"KNOWN-FINDING: property={prop_id} {kf['what']} [{kf['id']}; "
+                                 f"matched after minimisation]")
+                    continue
+                fs = shrink_mod.fine_sig(fv)
+                if fs in fine_reported:
+                    continue
+                fine_reported.add(fs)
+                n_new += 1
+                reported.append(rep)
+                lines.append(f"VIOLATION property={prop_id} replay={rep['path']}")
+                lines.append(f"  clause={fs[1]} site={fs[2]}")
+                lines.append(f"  detail={fv['detail'][:300]!r}")
+                rc = 1
+        for sig in list(groups)[12:]:
             lines.append(f"VIOLATION property={prop_id} replay=(not minimised) clause={sig[1]} site={sig[2]}")
+            n_new += 1
             rc = 1
         wall_used = time.monotonic() - t0
         ev = build_evidence(P, prop_id, tier, seed, agg, outcomes, cross, known_seen, reported,
-                            len(new_sigs), harness, skipped[0], wall_used, farm)
+                            n_new, harness, skipped[0], wall_used, farm)
         os.makedirs(os.path.join(VERIF, "evidence"), exist_ok=True)
         with open(os.path.join(VERIF, "evidence", f"{prop_id}.json"), "w") as f:
             json.dump(ev, f, indent=1, sort_keys=True)
@@ -189,7 +210,7 @@ def run_campaign(prop_id, tier, seed, repo, ncases=None, wall_s=None, verbose=Fa
         lines.append(
             f"{prop_id} {tier}: {len(outcomes)} cases, {agg['runs']} runs, "
             f"{agg['distinct_nontrivial']} distinct non-trivial, {agg['steps']} steps, "
-            f"{sum(agg['fired'].values())} faults fired, {len(new_sigs)} new violation signature(s), "
+            f"{sum(agg['fired'].values())} faults fired, {n_new} new violation signature(s), "
             f"{wall_used:.1f}s")
     finally:
         farm.stop()
@@ -222,8 +243,11 @@ def confirm_and_write(ctx, P, H, prop_id, sig, o, v, budget_s, seed, tier):
                         violation=v)
             out = H.replay(fctx, cand)
             got = [as_prop(x, prop_id) for x in out["violations"] if attributable(x, prop_id)]
-            if any(shrink_mod.sig_of(x) == tuple(sig) for x in got):
-                name = f"{prop_id}-{hashlib.sha1(repr(sig).encode()).hexdigest()[:10]}.json"
+            hit = [x for x in got if shrink_mod.sig_of(x) == tuple(sig)]
+            if hit:
+                cand["fine_violation"] = hit[0]
+                cand["violation"] = hit[0]
+                name = f"{prop_id}-{hashlib.sha1(repr(shrink_mod.fine_sig(hit[0])).encode()).hexdigest()[:10]}.json"
                 path = os.path.join(OUT_DIR, "replays", name)
                 with open(path, "w") as f:
                     json.dump(cand, f, indent=1)
